@@ -28,10 +28,10 @@ func (p *c39) Setup(env *fw.Env) error {
 	p.Env = env
 	installHooks()
 	p.N = env.Pick(1500, 60000)
-	p.RuleS = "random scenarios on a client/server connection pair over net.Pipe: both ends run 1..2 caller goroutines issuing 2..8 calls and notifications carrying a unique token (side, goroutine, n); handlers choose per request: echo, slow echo (yields), asynchronous response (ErrAsyncResponse + Respond from another goroutine), error, call back into the peer; each call is awaited from 1..2 goroutines; one fault per scenario: none / Close from either side at a random step / abrupt close of the underlying stream / writer failing after k writes / cancelled Await context; yield hooks at 8 points between critical sections widen the windows. Monitors: M1 client boundary (a successful Await carries the call's own token; all Awaits of a call agree), M2 wire (a monitored Framer logs every message read/written: per direction at most one response per call id, every response answers a call that was read, ids echo exactly), M3 lifecycle (when Close returns: no handler of that connection is running, no incoming call is unanswered, every issued AsyncCall is ready, a later Call fails at once with ErrClientClosing), M4 process (invariant panics of the package, DATA RACE reports and deadlocks — goroutine-state monitor — end the worker and are attributed to the scenario). Non-trivial = scenario with >=6 calls; distinct by the hash of the order of yield points."
+	p.RuleS = "random scenarios on a client/server connection pair over net.Pipe: both ends run 1..2 caller goroutines issuing 2..8 calls and notifications carrying a unique token (side, goroutine, n); handlers choose per request: echo, slow echo (yields), asynchronous response (ErrAsyncResponse + Respond from another goroutine), error, call back into the peer; each call is awaited from 1..2 goroutines; one fault per scenario: none / Close from either side at a random step / abrupt close of the underlying stream / writer failing after k writes / cancelled Await context / a malformed frame that kills one reader while writes still work; yield hooks at 8 points between critical sections widen the windows. Monitors: M1 client boundary (a successful Await carries the call's own token; all Awaits of a call agree), M2 wire (a monitored Framer logs every message read/written: per direction at most one response per call id, every response answers a call that was read, ids echo exactly), M3 lifecycle (when Close returns: no handler of that connection is running, no incoming call is unanswered, every issued AsyncCall is ready, a later Call fails at once with ErrClientClosing), M4 process (invariant panics of the package, DATA RACE reports and deadlocks — goroutine-state monitor — end the worker and are attributed to the scenario). Non-trivial = scenario with >=6 calls; distinct by the hash of the order of yield points."
 	p.Assume = []string{"schedules and fault sequences are sampled; the property's quantifier over every state of the connection state model is model checking and outside this technique", "an error outcome of a call is legitimate whenever a fault was injected or a side was closing"}
 	p.Floor = map[string]int{"#evaluations": p.N / 2, "#nontrivial": p.N / 4, "calls": p.N * 6, "calls:ok": p.N * 2, "calls:error": p.N / 2, "mode:echo": p.N, "mode:async": p.N / 2, "mode:callback": p.N / 4, "mode:err": p.N / 2, "mode:slow": p.N / 2,
-		"fault:none": p.N / 10, "fault:close-client": p.N / 10, "fault:close-server": p.N / 10, "fault:cut": p.N / 10, "fault:writefail": p.N / 10, "fault:ctx": p.N / 20,
+		"fault:none": p.N / 10, "fault:close-client": p.N / 12, "fault:close-server": p.N / 12, "fault:cut": p.N / 12, "fault:writefail": p.N / 12, "fault:ctx": p.N / 20, "fault:garbage": p.N / 12,
 		"close-returned-checked": p.N / 2, "wire-messages": p.N * 10, "yield-points": p.N * 20, "distinct-orderings": p.N / 3, "double-await": p.N}
 	return nil
 }
@@ -258,7 +258,7 @@ func (p *c39) Run(c fw.Case, r *fw.Rec) {
 
 	scn := &c39scn{cover: map[string]int{}, sides: map[string]*c39side{}}
 	wlog := &wireLog{}
-	fault := fw.Pick(rnd, []string{"none", "none", "close-client", "close-server", "cut", "writefail", "ctx"})
+	fault := fw.Pick(rnd, []string{"none", "none", "close-client", "close-server", "cut", "writefail", "ctx", "garbage"})
 	r.Cover("fault:" + fault)
 	if os.Getenv("VERIF_C39_DEBUG") != "" {
 		fmt.Fprintf(os.Stderr, "C39 case %d fault=%s\n", c.Idx, fault)
@@ -341,6 +341,15 @@ func (p *c39) Run(c fw.Case, r *fw.Rec) {
 					crmu.Lock()
 					closeReturned[s.name] = true
 					crmu.Unlock()
+				case "garbage":
+					// a malformed frame reaches one side's reader: that reader fails while both write directions still
+					// work (handlers that are running may still call back, answer, and must not get stuck)
+					scn.faulted.Store(true)
+					client.closing.Store(true)
+					server.closing.Store(true)
+					if v, ok := rwcs.Load(fw.Pick(rnd, []string{"client", "server"})); ok {
+						v.(*faultRWC).inner.Write([]byte("Content-Length: nonsense\r\n\r\n"))
+					}
 				case "cut":
 					scn.faulted.Store(true)
 					client.closing.Store(true)
